@@ -83,11 +83,14 @@ func enclosingCommitContinuation(h *H, fn *ssa.Function) commitContinuation {
 		if site := ir.SingleCallSite(f); site != nil {
 			return site.Parent()
 		}
+		if mv := ir.MethodValueSites(f); len(mv) == 1 && len(ir.StaticCallSites(f)) == 0 {
+			return mv[0].Parent()
+		}
 		return nil
 	}
 	steps := 0
 	for f := fn; f != nil && steps < 12; f, steps = up(f), steps+1 {
-		for _, mc := range ir.ClosureSites(f) {
+		for _, mc := range ir.FuncValueSites(f) {
 			for _, r := range closureUses(mc) {
 				once, ok := r.(*ssa.Call)
 				if !ok || !h.P.Matches(once.Common(), newOnce) {
@@ -97,12 +100,9 @@ func enclosingCommitContinuation(h *H, fn *ssa.Function) commitContinuation {
 					// it is the failure continuation
 					continue
 				}
-				if once.Referrers() == nil {
-					continue
-				}
-				for _, rr := range *once.Referrers() {
+				for _, rr := range valueUses(once) {
 					w, ok := rr.(ssa.CallInstruction)
-					if ok && h.P.Matches(w.Common(), qatWaitAsync) && argOf(w.Common(), 2) == once {
+					if ok && h.P.Matches(w.Common(), qatWaitAsync) && ir.Canon(throughFactory(argOf(w.Common(), 2))) == ssa.Value(once) {
 						return commitContinuation{W: w, OkFn: f}
 					}
 				}
@@ -159,10 +159,15 @@ func checkCommitContinuation(h *H, worker *ssa.Function, app *appendSite, in ssa
 	if cc.W.Parent() != app.Callback {
 		return false, "the commit wait is not issued from the WAL append completion callback"
 	}
-	if len(app.Callback.Params) != 1 || !ir.IsError(app.Callback.Params[0].Type()) {
+	// the callback's error parameter (the last one; a method value also has its receiver)
+	var errParam *ssa.Parameter
+	if n := len(app.Callback.Params); n > 0 && ir.IsError(app.Callback.Params[n-1].Type()) {
+		errParam = app.Callback.Params[n-1]
+	}
+	if errParam == nil {
 		return false, "unexpected signature of the WAL append completion callback"
 	}
-	ok, path := ir.OkOnly(app.Callback, app.Callback.Params[0], nil, cc.W)
+	ok, path := ir.OkOnly(app.Callback, errParam, nil, cc.W)
 	if !ok {
 		return false, "the commit wait is reachable when the WAL append/sync failed " + witness(path)
 	}
